@@ -26,6 +26,8 @@ import (
 // back edges. The loop is discharged when some iteration has no executable
 // back edge; a repeated header state with an executable back edge is reported.
 
+var eofMaxIter = 5
+
 type avKind int
 
 const (
@@ -878,7 +880,7 @@ func (e *eofEngine) checkLoop(fn *ssa.Function, lp *loop) eofLoopVerdict {
 		args[i] = avT
 	}
 	var history []string
-	for k := 1; k <= 5; k++ {
+	for k := 1; k <= eofMaxIter; k++ {
 		st := e.run(fn, args, lp, pin)
 		anyBack := false
 		next := map[*ssa.Phi]av{}
@@ -946,7 +948,7 @@ func (e *eofEngine) checkLoop(fn *ssa.Function, lp *loop) eofLoopVerdict {
 		history = append(history, state)
 		pin = next
 	}
-	v.detail = "no iteration without an executable back edge within 5 abstract iterations after end of input"
+	v.detail = fmt.Sprintf("no iteration without an executable back edge within %d abstract iterations after end of input", eofMaxIter)
 	return v
 }
 
